@@ -27,15 +27,18 @@
 (* window between a successful `git worktree add` and entering `try:`.     *)
 (*                                                                         *)
 (* The model follows the code statement by statement, including what the   *)
-(* code does not do: `git worktree remove` is called without --force       *)
-(* (fails on untracked files), its return code is ignored, `prune` only    *)
+(* code does not do: the return code of `git worktree remove --force` is   *)
+(* ignored (Variant "orig" = the code before the repo fix: no --force, the *)
+(* removal fails on untracked files - kept as a regression domain), `prune`*)
+(* only                                                                    *)
 (* drops entries whose directory is gone, `branch -D` refuses a branch     *)
 (* that a registered worktree has checked out, and only the three          *)
 (* statements after `try:` are protected by `finally`.                     *)
 (***************************************************************************)
 EXTENDS Naturals, Sequences, FiniteSets, TLC, Json
 
-CONSTANTS Variant,    \* "orig": the code as it is; "force": proposed fix (`git worktree remove --force`)
+CONSTANTS Variant,    \* "force": the code as it is (`git worktree remove --force`, repo commit "fix: force removal of
+                      \* the temporary git worktree"); "orig": before that fix (regression domain, exhibits the leak)
           Ops,        \* subset of {"load", "check"}
           Refs1,      \* refs used for load_git / check(against=...)
           Refs2,      \* refs used for check(base_ref=...)
@@ -47,24 +50,28 @@ CONSTANTS Variant,    \* "orig": the code as it is; "force": proposed fix (`git 
           MaxIntr,    \* number of interrupts per behaviour
           WithNotRepo,\* TRUE: also the case "path is not a git repository"
           WithLatest, \* TRUE: also check(against=None) -> get_latest_tag
+          WithNoTags, \* TRUE: also check(against=None) in a repository without tags -> GitError -> return 2
           Emit        \* TRUE: print one CASE line per terminal state (the fault schedules to replay)
 
 \* ---- the repository the harness builds (gverif/props/c20_repo.py builds exactly this) ----------------
 \*   commits  c1 (no package)  c2 (pkg with a syntax error)  c3 (pkg, API 1)  c4 (pkg, API 2)  c5 (HEAD, API 2)
 \*   tags     v0 -> c1, bad -> c2, v1 -> c3 (the latest tag)
-\*   branches main -> c5 (checked out), feat/x -> c4, x -> c3, griffe-x -> c3 (a USER branch that looks like
-\*            one of our temporary branches), wt-user -> c4 (checked out in a user worktree)
-AllRefs == {"v1", "feat/x", "x", "bad", "v0", "nope", "HEAD"}
+\*   branches main -> c5 (checked out), feat/x -> c4, feat-x -> c4 (normalises like feat/x), x -> c3,
+\*            griffe-x -> c3 (a USER branch that looks like one of our temporary branches),
+\*            wt-user -> c4 (checked out in a user worktree)
+\*   "WT" is not a ref: check() without base_ref loads the user's working tree with a plain load()
+AllRefs == {"v1", "feat/x", "feat-x", "x", "bad", "v0", "nope", "HEAD", "HEAD~1", "refs/tags/v1"}
 Known(r) == r # "nope"
 \* _griffe.git._normalize: NFKC, runs of non-word characters -> "-", strip "-"
-Norm(r) == IF r = "feat/x" THEN "feat-x" ELSE r
+Norm(r) == CASE r = "feat/x" -> "feat-x" [] r = "HEAD~1" -> "HEAD-1" [] r = "refs/tags/v1" -> "refs-tags-v1" [] OTHER -> r
 TmpBranch(r) ==      \* f"griffe-{normref}"   (constant table: no string arithmetic in TLC)
   CASE r = "v1" -> "griffe-v1" [] r = "feat/x" -> "griffe-feat-x" [] r = "x" -> "griffe-x" [] r = "bad" -> "griffe-bad"
-    [] r = "v0" -> "griffe-v0" [] r = "nope" -> "griffe-nope" [] r = "HEAD" -> "griffe-HEAD" [] OTHER -> "griffe-?"
+    [] r = "v0" -> "griffe-v0" [] r = "nope" -> "griffe-nope" [] r = "HEAD" -> "griffe-HEAD" [] r = "feat-x" -> "griffe-feat-x"
+    [] r = "HEAD~1" -> "griffe-HEAD-1" [] r = "refs/tags/v1" -> "griffe-refs-tags-v1" [] OTHER -> "griffe-?"
 Content(r) == IF r = "bad" THEN "syntax" ELSE IF r = "v0" THEN "absent" ELSE "ok"
-Api(r) == IF r \in {"v1", "x"} THEN 1 ELSE 2        \* API 2 removes a public function of API 1
+Api(r) == IF r \in {"v1", "x", "refs/tags/v1"} THEN 1 ELSE 2        \* API 2 removes a public function of API 1
 LatestTagRef == "v1"
-UserBranches == {"main", "feat/x", "x", "griffe-x", "wt-user"}
+UserBranches == {"main", "feat/x", "feat-x", "x", "griffe-x", "wt-user"}
 UserWorktrees == {[branch |-> "wt-user", tmp |-> "user", dir |-> TRUE]}
 Head0 == "main"
 NoExit == 9
@@ -98,8 +105,11 @@ RaiseInTry(e) == /\ pending' = e /\ Goto("WorktreeRemove") /\ inTry' = FALSE
 
 \* ---- check(): prelude ----------------------------------------------------------------------------------
 LatestTag ==       \* against = against or get_latest_tag(package)      [git tag -l --sort=-creatordate]
-  /\ pc = "LatestTag" /\ Goto("RepoRoot") /\ lastrc' = 0
-  /\ UNCHANGED <<plan, intrs, phase, pending, inTry, gitvars, tmpDirs, wtDirty, imported, lines, outcome, exitcode>>
+  /\ pc = "LatestTag" /\ lastrc' = 0
+  /\ IF plan.notags                       \* empty output -> GitError -> "griffe: error: ..." and `return 2`
+       THEN Goto("Done") /\ outcome' = "returned" /\ exitcode' = 2
+       ELSE Goto("RepoRoot") /\ UNCHANGED <<outcome, exitcode>>
+  /\ UNCHANGED <<plan, intrs, phase, pending, inTry, gitvars, tmpDirs, wtDirty, imported, lines>>
 RepoRoot ==        \* repository = get_repo_root(against_path)          [git rev-parse --show-toplevel]
   /\ pc = "RepoRoot" /\ Goto("AssertRepo") /\ phase' = 1 /\ lastrc' = 0
   /\ UNCHANGED <<plan, intrs, pending, inTry, gitvars, tmpDirs, wtDirty, imported, lines, outcome, exitcode>>
@@ -152,7 +162,7 @@ Return ==          \* `return load(...)` leaves the with block: the generator re
   /\ UNCHANGED <<plan, intrs, phase, pending, lastrc, gitvars, tmpDirs, wtDirty, imported, lines, outcome, exitcode>>
 
 \* ---- tmp_worktree(): finally ---------------------------------------------------------------------------
-WorktreeRemove ==  \* git worktree remove <location>   (no --force; check=False)
+WorktreeRemove ==  \* git worktree remove --force <location>   (check=False; Variant "orig": without --force)
   /\ pc = "WorktreeRemove" /\ Goto("Prune")
   /\ IF MyEntry \notin worktrees \/ (wtDirty /\ Variant # "force")
        THEN lastrc' = 1 /\ UNCHANGED <<worktrees, wtDirty>>          \* "contains modified or untracked files"
@@ -180,9 +190,14 @@ EndLoad ==
   /\ IF pending # "none"
        THEN Goto("Done") /\ outcome' = pending /\ UNCHANGED phase              \* check() catches nothing here
        ELSE IF plan.op = "load" THEN Goto("Done") /\ outcome' = "returned" /\ UNCHANGED phase
-       ELSE IF phase = 1 THEN Goto("AssertRepo") /\ phase' = 2 /\ UNCHANGED outcome
+       ELSE IF phase = 1 THEN Goto(IF plan.ref2 = "WT" THEN "LoadWT" ELSE "AssertRepo") /\ phase' = 2 /\ UNCHANGED outcome
        ELSE Goto("Diff") /\ phase' = 3 /\ UNCHANGED outcome
   /\ UNCHANGED <<plan, intrs, pending, inTry, lastrc, gitvars, tmpDirs, wtDirty, imported, lines, exitcode>>
+LoadWT ==          \* check() without base_ref: new_package = load(package, try_relative_path=True, ...) - no git at all
+  /\ pc = "LoadWT"
+  /\ IF plan.extAt = 2 THEN Goto("Done") /\ outcome' = "ExtError" /\ pending' = "ExtError" /\ UNCHANGED <<phase, lines>>
+     ELSE Goto("Diff") /\ phase' = 3 /\ lines' = Append(lines, TRUE) /\ UNCHANGED <<outcome, pending>>
+  /\ UNCHANGED <<plan, intrs, inTry, lastrc, gitvars, tmpDirs, wtDirty, imported, exitcode>>
 Diff ==            \* find_breaking_changes(old, new); print; return 1 if breakages else 0
   /\ pc = "Diff" /\ Goto("Done") /\ outcome' = "returned"
   \* under inspection both loads describe the SAME cached module object: no difference is ever found
@@ -195,13 +210,13 @@ Diff ==            \* find_breaking_changes(old, new); print; return 1 if breaka
 \*   the TemporaryDirectory only       -> RmTmp             (worktree add .. before `try:`, and inside `finally:`)
 \*   the try block                     -> the whole finally clause, then RmTmp
 IntrTarget(p) ==
-  CASE p \in {"LatestTag", "RepoRoot"} -> "Done"            \* outside any load_git: check() raises at once
+  CASE p \in {"LatestTag", "RepoRoot", "LoadWT"} -> "Done"            \* outside any load_git: check() raises at once
     [] p \in {"AssertRepo", "MkTmp"} -> "EndLoad"
     [] p \in {"WorktreeAdd", "EnterTry"} -> "RmTmp"
     [] p \in {"Find", "Analyse", "ExtensionHook", "ResolveAliases", "Return"} -> "WorktreeRemove"
     [] p \in {"WorktreeRemove", "Prune", "BranchDelete", "RmTmp"} -> "RmTmp"
     [] OTHER -> "Done"
-Interruptible == {"LatestTag", "RepoRoot", "AssertRepo", "MkTmp", "WorktreeAdd", "EnterTry", "Find", "Analyse",
+Interruptible == {"LoadWT", "LatestTag", "RepoRoot", "AssertRepo", "MkTmp", "WorktreeAdd", "EnterTry", "Find", "Analyse",
                   "ExtensionHook", "ResolveAliases", "Return", "WorktreeRemove", "Prune", "BranchDelete", "RmTmp"}
 InterruptAt(p) ==
   /\ pc = p /\ p \in Interruptible
@@ -217,11 +232,12 @@ AnName(a, b) == CASE a = "static" /\ b = "off" -> "static" [] a = "inspect" /\ b
                   [] OTHER -> "-"
 Plans ==
   {p \in [op : Ops, ref1 : Refs1, ref2 : Refs2 \cup {"-"}, analysis : {"static", "inspect"}, bc : {"off", "on", "ignored"},
-          status0 : Status0s, repoOk : BOOLEAN, extAt : ExtAts, latest : BOOLEAN] :
+          status0 : Status0s, repoOk : BOOLEAN, extAt : ExtAts, latest : BOOLEAN, notags : BOOLEAN] :
      /\ AnName(p.analysis, p.bc) \in Analyses
      /\ (p.op = "load") = (p.ref2 = "-")
      /\ (p.op = "load" => p.extAt \in {0, 1} /\ ~p.latest)
      /\ (p.latest => WithLatest /\ p.ref1 = LatestTagRef)
+     /\ (p.notags => WithNoTags /\ p.latest /\ p.op = "check" /\ p.extAt = 0 /\ p.ref2 = "HEAD")
      /\ (~p.repoOk => WithNotRepo /\ p.op = "load" /\ p.ref1 = "v1" /\ p.analysis = "static"
                       /\ p.extAt = 0 /\ p.status0 = "clean")}
 
@@ -236,7 +252,7 @@ Init == \E p \in Plans : InitOf(p)
 
 Step == \/ LatestTag \/ RepoRoot \/ AssertRepo \/ MkTmp \/ WorktreeAdd \/ EnterTry
         \/ Find \/ Analyse \/ ExtensionHook \/ ResolveAliases \/ Return
-        \/ WorktreeRemove \/ Prune \/ BranchDelete \/ RmTmp \/ EndLoad \/ Diff
+        \/ WorktreeRemove \/ Prune \/ BranchDelete \/ RmTmp \/ EndLoad \/ LoadWT \/ Diff
 Next == Step \/ Interrupt
 Spec == Init /\ [][Next]_vars
 
@@ -252,7 +268,7 @@ NoTmpLeft == Terminal => tmpDirs = {}
 \* "the objects returned remain fully usable, including their source lines, after the checkout has been removed"
 LinesKept == (Terminal /\ outcome = "returned") =>
                /\ \A k \in DOMAIN lines : lines[k]
-               /\ Len(lines) = IF plan.op = "check" THEN 2 ELSE 1
+               /\ Len(lines) = IF exitcode = 2 THEN 0 ELSE IF plan.op = "check" THEN 2 ELSE 1
 \* temporary names never collide with user branches: at NO point (not only at the end) is a user branch
 \* deleted or a user worktree touched, and HEAD / the status never move
 UserStateKept == /\ UserBranches \subseteq branches /\ UserWorktrees \subseteq worktrees
